@@ -699,6 +699,15 @@ pub fn run_ws_case(case: &WsCase, oracles: WsOracles) -> CaseResult {
                 for t in model.values_mut() {
                     for e in t.values_mut() {
                         let b = e.expecting.len();
+                        if e.expecting.values().any(|d| *d == now + 1) || e.deadline == now + 1 {
+                            out.label("clean-one-before-deadline");
+                        }
+                        if e.expecting.values().any(|d| *d + 1 == now) || e.deadline + 1 == now {
+                            out.label("clean-one-after-deadline");
+                        }
+                        if e.expecting.values().any(|d| *d == now) {
+                            out.label("clean-at-offer-deadline");
+                        }
                         at_deadline |= e.expecting.values().any(|d| *d == now) || e.deadline == now;
                         e.expecting.retain(|_, d| *d > now);
                         expired_offers += b - e.expecting.len();
@@ -709,7 +718,11 @@ pub fn run_ws_case(case: &WsCase, oracles: WsOracles) -> CaseResult {
                 }
                 model.retain(|_, t| !t.is_empty());
                 if oracles.access_list {
+                    let n = model.len();
                     model.retain(|(_, hsh), _| allowed(&listed, hsh));
+                    if model.len() < n {
+                        out.label("forbidden-torrent-cleaned");
+                    }
                 }
                 maps.clean(&config, &access_list, start);
                 if expired_peers > 0 {
@@ -805,6 +818,8 @@ pub struct WsGen {
     /// weight of signalling (offers/answers) in announces
     pub signalling_w: u32,
     pub access_list: bool,
+    /// weight multiplier of tick / clean operations
+    pub time_w: u32,
 }
 
 pub fn ws_op(p: WsGen) -> BoxedStrategy<WsOp> {
@@ -852,9 +867,9 @@ pub fn ws_op(p: WsGen) -> BoxedStrategy<WsOp> {
     let clean = prop_oneof![3 => Just(0u32), 3 => Just(1u32), 2 => 2u32..6].prop_map(|dt| WsOp::Clean { dt });
     if p.access_list {
         let set = proptest::collection::vec(0..WS_TORRENTS, 0..3).prop_map(|listed| WsOp::SetAccessList { listed });
-        prop_oneof![3 => open, 14 => announce, p.signalling_w / 3 + 1 => answer_pending, 2 => scrape, 2 => close, 1 => tick, 2 => clean, 2 => set].boxed()
+        prop_oneof![3 => open, 14 => announce, p.signalling_w / 3 + 1 => answer_pending, 2 => scrape, 2 => close, p.time_w.max(1) => tick, 2 * p.time_w.max(1) => clean, 2 => set].boxed()
     } else {
-        prop_oneof![3 => open, 14 => announce, p.signalling_w / 3 + 1 => answer_pending, 2 => scrape, 2 => close, 1 => tick, 2 => clean].boxed()
+        prop_oneof![3 => open, 14 => announce, p.signalling_w / 3 + 1 => answer_pending, 2 => scrape, 2 => close, p.time_w.max(1) => tick, 2 * p.time_w.max(1) => clean].boxed()
     }
 }
 
